@@ -212,6 +212,7 @@ def _run_slice(args):
                 if sum(1 for _i, v_ in agg["viols"] if v_["sig"] == v["sig"]) < 10:
                     if res.get("replay_pref"):
                         v = dict(v, replay_pref=True)  # the check says this case carries its history inside itself
+                    v = dict(v, worker=[widx, nworkers, sample_mod])  # (enough to re-create what this process ran before case i)
                     agg["viols"].append((i, v))
         if len(agg["samples"]) < 2 and (i % max(1, len(_CASES) // 7) == 0):
             agg["samples"].append(check.sample_repr(case, res))
@@ -377,6 +378,25 @@ def _run(check: Check, args, t0: float) -> int:
             if _verify_replay(check, path):
                 break
             path = None
+        if path is None and not args.limit:
+            # No stored case fails on its own: the failure depends on what the same process ran before (state that the code under test
+            # keeps between calls - a module-level memo, an object cache keyed by id()).  Replay the HISTORY instead: the cases this
+            # worker had run up to the failing one, in order, in a fresh interpreter; then shrink that history.
+            i, v = min(lst, key=lambda x: x[0])
+            hist = _worker_history(v.get("worker"), i, len(cases))
+            if hist:
+                hpath = _write_replay(check, tier, seed, i, cases[i], sig, v, original=None, suffix="-history", history=hist)
+                if _verify_replay(check, hpath):
+                    small = _minimise_history(check, tier, seed, i, cases[i], sig, v, hist)
+                    if small is not None:
+                        hpath = small
+                    path = hpath
+                    print(f"NOTE check={check.id}: {sig} only fails after other cases ran in the same process; the replay file carries that history")
+                    print(f"VIOLATION property={check.id} replay={path}")
+                    print(f"  signature: {sig}  ({persig[sig]} cases)  detail: {v.get('detail', '')[:300]}")
+                    new_viols.append(sig)
+                    exit_code = 1
+                    continue
         if path is None:
             # only occurs with state left behind by earlier cases of the same worker process (or a harness problem): never reported
             # as a VIOLATION; if nothing at all replays the run ends as a harness error below
@@ -458,7 +478,47 @@ def _minimise(check: Check, case, sig: str):
     return cur
 
 
-def _write_replay(check, tier, seed, index, case, sig, v, original=None, suffix="") -> str:
+def _worker_history(worker, i: int, n: int) -> t.List[int]:
+    """Indices of the cases the worker that ran case ``i`` had executed up to and including it (see _run_slice)."""
+    if not worker:
+        return []
+    widx, nworkers, sample_mod = worker
+    out = []
+    for j in range(i + 1):
+        mine = j % nworkers == widx
+        shadow = sample_mod and j % sample_mod == 0 and (j // sample_mod + 1) % nworkers == widx and nworkers > 1
+        if mine or shadow:
+            out.append(j)
+    return out
+
+
+def _minimise_history(check, tier, seed, i, case, sig, v, hist: t.List[int]) -> t.Optional[str]:
+    """ddmin over the prefix of the history (the failing case stays last); every candidate is verified in a fresh interpreter."""
+    prefix = hist[:-1]
+    best = None
+    tries = 0
+    chunk = max(1, len(prefix) // 2)
+    while chunk >= 1 and tries < 24 and prefix:
+        progressed = False
+        k = 0
+        while k < len(prefix) and tries < 24:
+            cand = prefix[:k] + prefix[k + chunk :]
+            tries += 1
+            path = _write_replay(check, tier, seed, i, case, sig, v, original=None, suffix="-history-min", history=cand + [i])
+            if _verify_replay(check, path):
+                prefix = cand
+                best = path
+                progressed = True
+            else:
+                k += chunk
+        if not progressed:
+            chunk //= 2
+    if best is not None:  # (the last verified file may have been overwritten by a failed attempt: write the best one again)
+        best = _write_replay(check, tier, seed, i, case, sig, v, original=None, suffix="-history-min", history=prefix + [i])
+    return best
+
+
+def _write_replay(check, tier, seed, index, case, sig, v, original=None, suffix="", history=None) -> str:
     os.makedirs(REPLAY_DIR, exist_ok=True)
     h = hashlib.sha256(sig.encode()).hexdigest()[:10]
     path = os.path.join(REPLAY_DIR, f"{check.id}-{h}{suffix}.json")
@@ -466,6 +526,9 @@ def _write_replay(check, tier, seed, index, case, sig, v, original=None, suffix=
            "signature": sig, "detail": v.get("detail", ""), "case": case}
     if original is not None and original != case:
         doc["unminimised_case"] = original
+    if history is not None:
+        # indices into check.cases(tier, verif_seed): run in this order in one fresh process (after the check's warm-up), the last one fails
+        doc["history"] = list(history)
     with open(path, "w") as f:
         f.write(json.dumps(json.loads(jdump(doc)), indent=1))
     return path
@@ -483,7 +546,20 @@ def _replay(check: Check, path: str) -> int:
         doc = json.load(f)
     _limit_memory()
     case = doc["case"]
-    res = check.run_case(case)
+    if doc.get("history"):
+        global _CHECK, _CASES
+        check.setup(doc.get("tier", "quick"), doc.get("verif_seed", 0))
+        cases = check.cases(doc.get("tier", "quick"), doc.get("verif_seed", 0))
+        _CHECK, _CASES = check, cases
+        check.warmup(cases)
+        res = {}
+        for j in doc["history"]:
+            try:
+                res = check.run_case(cases[j])
+            except Exception:  # noqa: BLE001 - an earlier case of the history may fail in the harness; only the last one is judged
+                res = {}
+    else:
+        res = check.run_case(case)
     v = res.get("viol")
     if v and v["sig"] == doc.get("signature"):
         print(f"REPLAY-REPRODUCED {v['sig']}")
